@@ -178,3 +178,9 @@ func verifGuard(mu *sync.RWMutex, fields ...any) {}
 
 // verifLockFree: executor-only query of the lock state (see vhLockFree).
 func verifLockFree(mu *sync.RWMutex) bool { return true }
+
+// verifTimerResets: the durations time.Timer.Reset was called with (executor only).
+func verifTimerResets() []int64 { return nil }
+
+// verifLastNow: the nanosecond value most recently returned by time.Now/Since (executor only).
+func verifLastNow() int64 { return 0 }
